@@ -628,3 +628,88 @@ func Verify(pk, msg, sig []byte) bool {
 	}
 	return true
 }
+
+// ---- buffer-level samplers and single-polynomial expanders (for direct comparison with the
+// library's unexported functions through the verif aliases) ----
+
+// RejUniformBuf consumes whole 3-byte groups of buf while fewer than max coefficients were
+// accepted: 23-bit little-endian candidates, accepted iff < Q.
+func RejUniformBuf(buf []byte, max int) (out []int64) {
+	for pos := 0; len(out) < max && pos+3 <= len(buf); pos += 3 {
+		t := int64(buf[pos]) | int64(buf[pos+1])<<8 | int64(buf[pos+2]&0x7f)<<16
+		if t < Q {
+			out = append(out, t)
+		}
+	}
+	return
+}
+
+// RejEtaBuf consumes bytes of buf while fewer than max coefficients were accepted: low nibble
+// first, a nibble t < 15 yields eta - (t mod 5), returned as a centred value.
+func RejEtaBuf(buf []byte, max int) (out []int64) {
+	for pos := 0; len(out) < max && pos < len(buf); pos++ {
+		for _, t := range []int64{int64(buf[pos] & 15), int64(buf[pos] >> 4)} {
+			if t < 15 && len(out) < max {
+				out = append(out, Eta-t%5)
+			}
+		}
+	}
+	return
+}
+
+// ExpandAEntry is A[i][j] (NTT domain).
+func ExpandAEntry(rho []byte, i, j int) Poly {
+	h := shake128(rho, []byte{byte(j), byte(i)})
+	p, _, _ := RejUniform(func(n int) []byte { return squeeze(h, n) })
+	return p
+}
+
+// SampleEta is the eta-bounded secret polynomial for (rho', nonce), coefficients mod Q.
+func SampleEta(rhoP []byte, nonce int) Poly {
+	h := shake256(rhoP, le16(nonce))
+	return RejEta(func(n int) []byte { return squeeze(h, n) })
+}
+
+// ExpandMaskPoly is the mask polynomial for (rho', nonce), coefficients mod Q.
+func ExpandMaskPoly(rhoP []byte, nonce int) Poly {
+	return UnpackZ(squeeze(shake256(rhoP, le16(nonce)), 640))
+}
+
+// Centre exposes the centred representative.
+func Centre(a int64) int64 { return centre(a) }
+
+// Mod exposes reduction to [0,Q).
+func Mod(a int64) int64 { return mod(a) }
+
+func UnpackEta(b []byte) Poly {
+	return unpackPoly(b, 3, func(v uint64) int64 { return mod(Eta - int64(v)) })
+}
+func UnpackT0(b []byte) Poly {
+	return unpackPoly(b, 13, func(v uint64) int64 { return mod(1<<(D-1) - int64(v)) })
+}
+func UnpackW1(b []byte) Poly { return unpackPoly(b, 4, func(v uint64) int64 { return int64(v) }) }
+
+// EncodeHints is the specification's hint encoding (ordered positions, cumulative counts, zero padding).
+func EncodeHints(h *[K]Poly) []byte { return encodeHints(h) }
+
+// KeysFromSK parses a packed secret key (and the matching public key for t1) into a Keys value
+// that can sign; pk may be nil when only signing is needed.
+func KeysFromSK(sk, pk []byte) *Keys {
+	k := &Keys{SK: append([]byte{}, sk...), PK: append([]byte{}, pk...)}
+	k.Rho, k.Key, k.Tr = sk[0:32], sk[32:64], sk[64:96]
+	off := 96
+	for i := 0; i < L; i++ {
+		k.S1[i] = UnpackEta(sk[off : off+96])
+		off += 96
+	}
+	for i := 0; i < K; i++ {
+		k.S2[i] = UnpackEta(sk[off : off+96])
+		off += 96
+	}
+	for i := 0; i < K; i++ {
+		k.T0[i] = UnpackT0(sk[off : off+416])
+		off += 416
+	}
+	k.A = ExpandA(k.Rho)
+	return k
+}
